@@ -11,6 +11,7 @@ import (
 	"pgregory.net/rapid"
 
 	"verif/evid"
+	"verif/gen/hist"
 	"verif/gen/tmpl"
 	"verif/oracle/htmltok"
 	"verif/tx"
@@ -146,6 +147,67 @@ func gen(t *rapid.T) Case {
 
 func TestPropStructure(t *testing.T) { evid.RunProp(t, "structure", 1, gen, check) }
 
+// ---------- sub-property "sets": data independence of every execution inside an API history ----------
+
+type SetCase struct {
+	H hist.History `json:"history"`
+}
+
+func genSet(t *rapid.T) SetCase {
+	return SetCase{*hist.Gen(t, hist.Options{MaxOps: 10, BadMembers: true, RuntimeBad: true, ParseAfter: true, ReadOnlyOps: false, Clones: rapid.IntRange(0, 3).Draw(t, "clones") == 0})}
+}
+
+func inertHistory(h hist.History) hist.History {
+	out := h
+	out.Ops = append([]hist.Op{}, h.Ops...)
+	for i, op := range out.Ops {
+		if op.Data == nil {
+			continue
+		}
+		d := *op.Data
+		if d.Typ == "" && d.V != "" {
+			d.V = tmpl.Placeholder
+		}
+		if d.U != "" {
+			d.U = tmpl.Placeholder
+		}
+		out.Ops[i].Data = &d
+	}
+	return out
+}
+
+func checkSet(c SetCase) evid.Outcome {
+	o := evid.Outcome{}
+	rh, r1 := hist.Run(&c.H, 0)
+	defer r1.Close()
+	ih := inertHistory(c.H)
+	ri, r2 := hist.Run(&ih, 0)
+	defer r2.Close()
+	for i, op := range c.H.Ops {
+		if !hist.IsExec(op.Kind) || rh[i].Nil || rh[i].Panic != "" || i >= len(ri) {
+			continue
+		}
+		if (rh[i].Err == "") != (ri[i].Err == "") {
+			continue // run-time sanitizer verdicts may depend on the data; no claim
+		}
+		if op.Data != nil && op.Data.Typ == "" && hostileByte(string(op.Data.V)) {
+			o.NonTrivial = true
+		}
+		for _, scripting := range []bool{false, true} {
+			sh, si := skeleton(rh[i].Out, scripting), skeleton(ri[i].Out, scripting)
+			if sh.String() != si.String() {
+				return evid.Viol("step %d %+v: data changed the markup structure (scripting=%v)\noutput:       %q\ninert output: %q\nskeleton:       %s\ninert skeleton: %s\nhistory: %+v", i, op, scripting, rh[i].Out, ri[i].Out, sh, si, c.H.Ops)
+			}
+			if hasComment(sh) {
+				return evid.Viol("step %d %+v: output contains a comment token: %q\nhistory: %+v", i, op, rh[i].Out, c.H.Ops)
+			}
+		}
+	}
+	return o
+}
+
+func TestPropSets(t *testing.T) { evid.RunProp(t, "sets", 0.25, genSet, checkSet) }
+
 func TestReplay(t *testing.T) {
-	evid.Replay(t, evid.R("structure", check))
+	evid.Replay(t, evid.R("structure", check), evid.R("sets", checkSet))
 }
